@@ -2,7 +2,7 @@
    Only statements; every proof is one lemma of the Proofs* files. *)
 From Coq Require Import List Bool Arith ZArith QArith Qcanon.
 From AL Require Import Base.CaseLib C04.Model C06.Model C06.Spec.
-From AL Require Import C04.Spec C06.ProofsAlg C06.ProofsPull C06.ProofsLoop C06.ProofsWf C06.ProofsEq C06.ProofsGain C06.ProofsKeys C06.ProofsUniq C06.ProofsLin C06.ProofsLin2 C06.ProofsLin3 C06.ProofsLin4 C06.ProofsWorld C06.ProofsWorld2 C06.ProofsWorld3 C06.ProofsWorld4 C06.Check.
+From AL Require Import C04.Spec C06.ProofsAlg C06.ProofsPull C06.ProofsLoop C06.ProofsWf C06.ProofsEq C06.ProofsGain C06.ProofsKeys C06.ProofsUniq C06.ProofsLin C06.ProofsLin2 C06.ProofsLin3 C06.ProofsLin4 C06.ProofsWorld C06.ProofsWorld2 C06.ProofsWorld3 C06.ProofsWorld4 C06.ProofsWorld5 C06.ProofsWorld6 C06.Check.
 Import ListNotations.
 Open Scope Qc_scope.
 
@@ -58,38 +58,115 @@ Theorem C06_pull_value : forall S n L P V,
 Proof. exact pull_sound. Qed.
 Print Assumptions C06_pull_value.
 
-(* tv_diffeq (in the form of the generated program) + tv_ends_at_shortest +
-   coef_read_once, for the generator the library builds, for all sources, memories,
-   any number of coefficient streams and any consumer demand (fuel):
-   the trace is a sequence of rounds; round n reads the input and then every
-   coefficient source of the program exactly once (list rd, NoDup with the input),
-   and yields  gain( sum of the generated terms ) with every next(b_k) / next(a_k)
-   replaced by the coefficient frozen at n (tsum: b_k[n]*d_k, -a_k[n]*m_k, the
-   constant terms of C04) on the register file that the shift lines maintain;
-   at the first instant at which the input or a coefficient source has ended the
-   generator returns (EvStop) without an output - unless a frozen coefficient is
-   undefined there for every completion of the ended sources (division by zero among
-   delivered items: ZeroDivisionError, on which the text is silent).
-   wf_prog is the boolean test of C06.ProofsWf (tee copies consistent, one clean
-   round); Check.corr_tv evaluates it on the model's program of every sampled case.
-   The sequence form (registers = past samples, sum of terms = sum over the tables,
-   the gain branch) is C06_tv_diffeq below.
-   PARTIAL: wf_prog is checked per sampled filter.  The unconditional form is
-   C06_lin_round_spec (hypothesis linf, syntactic); linf is proved for filters made of
-   distinct sources and constants (C06_simple_linf) and for every product / scaling /
-   division by a scalar / negation / shifted denominator of such filters
-   (C06_built_linf_mul); what is left is linf for sums (Poly.__add__ and the tee copies
-   of ZFilter.__add__: padd, pcopy) and for the variable-gain branch (divide_through). *)
-Theorem C06_tv_round_spec_partial : forall S (f : tfilt) (p : tprog) memory zero fuel,
-  wf_prog f p = true ->
-  round_spec S (stream_iters (t_num f)) (stream_iters (t_den f)) p fuel 0
+(* ======================================================================================
+   THE PROPERTY, for all inputs and with nothing evaluated on samples.
+   good_expr e: e is any expression of sums, differences, products, negations, scalings and
+   offsets by numbers or Streams from either side and divisions by a number or Stream, over
+   ZFilter(dict, dict) filters whose coefficients are constants or Streams (any subset,
+   including the leading denominator coefficient); every Stream is a source of its own and
+   none is the filter input; the dicts have distinct keys.  f = the filter the library
+   builds, f' = what __call__ hands to the code generator (f itself, or f divided through by
+   the gain Stream), p = the generated program.
+   ====================================================================================== *)
+
+(* the Stream coefficients of f' always form a linear family (tee accounting): induction
+   over the expression with the world invariant of C06.ProofsWorld*, through Poly.__mul__,
+   Poly.__add__, Poly.copy, the constructor's shift and the variable-gain branch *)
+Theorem C06_built_linf : forall e f h f' h', good_expr e ->
+  build coef_alg e 0 = BOk f h -> prepare h f = Ok (BOk f' h') ->
+  (exists HT, linf HT f') /\ keys_ok (t_num f) /\ keys_ok (t_den f) /\ keys_ok (t_num f') /\ keys_ok (t_den f').
+Proof. exact built_linf. Qed.
+Print Assumptions C06_built_linf.
+
+(* the trace of the generated generator: a sequence of rounds; round n reads the input and
+   then every coefficient source of the program exactly once, and yields gain(sum of the
+   generated terms) with every next(b_k) / next(a_k) frozen at n on the register file the
+   shift lines maintain; at the first instant at which the input or a coefficient source has
+   ended the generator returns without an output - unless a coefficient is undefined there
+   for every completion of the ended sources (division by zero: the text is silent) *)
+Theorem C06_tv_round_spec : forall S e f f' h h' zero p,
+  good_expr e -> build coef_alg e 0 = BOk f h -> prepare h f = Ok (BOk f' h') ->
+  tcodegen f' zero = Ok (TGen p) ->
+  forall memory fuel,
+  round_spec S (stream_iters (t_num f')) (stream_iters (t_den f')) p fuel 0
              (unpack (p_mvars (tp_prog p)) memory empty_env)
              (assign_all (p_dvars (tp_prog p)) zero empty_env)
-             (run_tv S (TGen p) f memory zero fuel).
-Proof. exact run_tv_wf. Qed.
-Print Assumptions C06_tv_round_spec_partial.
+             (run_tv S (TGen p) f' memory zero fuel).
+Proof. exact all_round_spec. Qed.
+Print Assumptions C06_tv_round_spec.
 
-(* ---- tee accounting WITHOUT the per-sample test.  linf HT f (C06.ProofsLin3) is a
+(* coef_read_once: the sources read before each yield are the input and then every
+   coefficient source exactly once (NoDup: round_lin), however many tee copies exist *)
+Theorem C06_coef_read_once : forall S e f f' h h' zero p,
+  good_expr e -> build coef_alg e 0 = BOk f h -> prepare h f = Ok (BOk f' h') ->
+  tcodegen f' zero = Ok (TGen p) ->
+  forall memory fuel,
+  Forall (fun seg => seg = 0%nat :: snd (aterms (stream_iters (t_num f')) (stream_iters (t_den f'))
+                                               (p_terms (tp_prog p)) p_zero))
+         (segs (run_tv S (TGen p) f' memory zero fuel) []).
+Proof. exact all_read_once. Qed.
+Print Assumptions C06_coef_read_once.
+
+(* tv_ends_at_shortest: if no coefficient divides by zero among the delivered items, the
+   number of outputs is the number of consecutive instants at which the input and every
+   coefficient source deliver (at most what the consumer asks for), and then the generator
+   returns (EvStop: no exception) *)
+Theorem C06_tv_ends_at_shortest : forall S e f f' h h' zero p,
+  good_expr e -> build coef_alg e 0 = BOk f h -> prepare h f = Ok (BOk f' h') ->
+  tcodegen f' zero = Ok (TGen p) ->
+  forall memory fuel,
+  let bs := stream_iters (t_num f') in
+  let az := stream_iters (t_den f') in
+  let ts := p_terms (tp_prog p) in
+  let rd := snd (aterms bs az ts p_zero) in
+  (forall n m d, forallb (alive S n) rd = true -> tsum (snapshot S n) bs az ts m d 0 <> None) ->
+  (forall n m d, exists V, compat S n V /\ tsum V bs az ts m d 0 <> None) ->
+  let tr := run_tv S (TGen p) f' memory zero fuel in
+  count_yields tr = live_len S (0%nat :: rd) fuel 0 /\
+  ((live_len S (0%nat :: rd) fuel 0 < fuel)%nat -> exists pre, tr = pre ++ [EvStop]).
+Proof. exact all_ends. Qed.
+Print Assumptions C06_tv_ends_at_shortest.
+
+(* tv_diffeq: with x before 0 = zero, y[-k] = the k-th memory item (C04's past), every table
+   entry of f frozen at the instant j (vtab: a constant is a constant sequence, a Stream its
+   j-th value), every output j satisfies
+       a0[j] * y[j] = sum_k b_k[j] * x[j-k] - sum_{k>=1} a_k[j] * y[j-k]
+   wherever a0[j] is defined and non-zero; number gain or Stream gain *)
+Theorem C06_tv_diffeq : forall S e f f' h h' zero p,
+  good_expr e -> build coef_alg e 0 = BOk f h -> prepare h f = Ok (BOk f' h') ->
+  tcodegen f' zero = Ok (TGen p) ->
+  forall mem fuel,
+  let lm := t_mem_size f' in
+  let ys := yields (run_tv S (TGen p) f' (normalise_memory lm zero mem) zero fuel) in
+  let X := xrel S 0 (fun _ => zero) in
+  let Y := ysig (past lm zero mem) ys in
+  forall j, (j < length ys)%nat ->
+  forall a0, gain_at (snapshot S j) f = Some a0 -> a0 <> 0 ->
+    a0 * Y (Z.of_nat j)
+    = psum (vtab (snapshot S j) (t_num f)) (fun k => X (Z.of_nat j - k)%Z)
+      - psum (feedback (vtab (snapshot S j) (t_den f))) (fun k => Y (Z.of_nat j - k)%Z).
+Proof. exact all_diffeq. Qed.
+Print Assumptions C06_tv_diffeq.
+
+(* tv_const_stream: two such expressions whose coefficient tables agree at every instant
+   (a constant c in one, an endless Stream of c in the other: C06_const_stream_entry) and
+   whose denominators have the same keys produce equal outputs wherever both produce one
+   (the gain being defined, equal and non-zero there) *)
+Theorem C06_tv_const_stream : forall S e1 e2 (f1 f2 : tfilt) h1 h2 zero mem fuel f1' f2' h1' h2' p1 p2,
+  good_expr e1 -> build coef_alg e1 0 = BOk f1 h1 -> prepare h1 f1 = Ok (BOk f1' h1') -> tcodegen f1' zero = Ok (TGen p1) ->
+  good_expr e2 -> build coef_alg e2 0 = BOk f2 h2 -> prepare h2 f2 = Ok (BOk f2' h2') -> tcodegen f2' zero = Ok (TGen p2) ->
+  map fst (t_den f1) = map fst (t_den f2) ->
+  (forall j, vtab (snapshot S j) (t_num f1) = vtab (snapshot S j) (t_num f2)) ->
+  (forall j, vtab (snapshot S j) (t_den f1) = vtab (snapshot S j) (t_den f2)) ->
+  let ys1 := yields (run_tv S (TGen p1) f1' (normalise_memory (t_mem_size f1') zero mem) zero fuel) in
+  let ys2 := yields (run_tv S (TGen p2) f2' (normalise_memory (t_mem_size f2') zero mem) zero fuel) in
+  (forall j, (j < length ys1)%nat -> (j < length ys2)%nat ->
+     exists a0, gain_at (snapshot S j) f1 = Some a0 /\ gain_at (snapshot S j) f2 = Some a0 /\ a0 <> 0) ->
+  forall j, (j < length ys1)%nat -> (j < length ys2)%nat -> nth j ys1 0 = nth j ys2 0.
+Proof. exact outputs_agree_built. Qed.
+Print Assumptions C06_tv_const_stream.
+
+(* ---- the same for ANY filter satisfying the syntactic condition linf (not only built ones).  linf HT f (C06.ProofsLin3) is a
    syntactic condition on the Stream coefficients of f and a hub table HT: every tee
    node is a copy c < n of a hub of the table, hub numbers distinct, iterators of lower
    rank, and every leaf (source or tee copy) occurs at most once across the coefficient
@@ -148,78 +225,6 @@ Theorem C06_simple_linf : forall f : tfilt, simple_filter f -> linf [] f.
 Proof. exact simple_linf. Qed.
 Print Assumptions C06_simple_linf.
 
-(* end to end with nothing evaluated on samples: ZFilter(num, den) from dicts of constants
-   and pairwise distinct sources (any subset of b_k, a_k for k >= 1 replaced by streams),
-   lowest denominator power 0, a number as gain: round spec and read-once *)
-Theorem C06_base_round_spec : forall S (n d : tdata) h f h1 h2 zero p memory fuel,
-  (forall kv, In kv (n ++ d) -> simple_coef (snd kv)) ->
-  NoDup (0%nat :: src_ids n ++ src_ids d) ->
-  NoDup (map fst n) -> NoDup (map fst d) ->
-  tmin_power (tcompact coef_alg d) = Some 0%Z ->
-  build coef_alg (FBase n d) h = BOk f h1 ->
-  prepare h1 f = Ok (BOk f h2) -> tcodegen f zero = Ok (TGen p) ->
-  round_spec S (stream_iters (t_num f)) (stream_iters (t_den f)) p fuel 0
-             (unpack (p_mvars (tp_prog p)) memory empty_env)
-             (assign_all (p_dvars (tp_prog p)) zero empty_env)
-             (run_tv S (TGen p) f memory zero fuel) /\
-  Forall (fun seg => seg = 0%nat :: snd (aterms (stream_iters (t_num f)) (stream_iters (t_den f))
-                                               (p_terms (tp_prog p)) p_zero))
-         (segs (run_tv S (TGen p) f memory zero fuel) []).
-Proof. exact base_round_spec. Qed.
-Print Assumptions C06_base_round_spec.
-
-(* linf for the results of the arithmetic: every filter built by products, scalings by a
-   number or a Stream from either side, divisions by a number or a Stream, negations (and
-   the denominator shift of the constructor) from filters made of pairwise distinct sources
-   and constants is a linear family.  Proof: a world invariant (the leaves of all live
-   Stream objects + a growing hub table, C06.ProofsWorld) kept by Poly.__mul__ (every thub
-   is a batch of fresh hubs, every product two fresh copies), by the merging of equal
-   powers, by compaction and by the constructor; induction over the expression. *)
-Theorem C06_built_linf_mul : forall e f h',
-  mul_only e -> fexp_simple e -> NoDup (esrcs e) -> ~ In (LSrc 0) (esrcs e) ->
-  build coef_alg e 0 = BOk f h' -> exists HT, linf HT f.
-Proof. exact built_linf_mul. Qed.
-Print Assumptions C06_built_linf_mul.
-
-(* end to end, nothing evaluated on samples: products / scalings with a number as gain *)
-Theorem C06_products_round_spec : forall S e f h1 h2 zero p memory fuel,
-  mul_only e -> fexp_simple e -> bases_ok e ->
-  NoDup (esrcs e) -> ~ In (LSrc 0) (esrcs e) ->
-  build coef_alg e 0 = BOk f h1 ->
-  prepare h1 f = Ok (BOk f h2) -> tcodegen f zero = Ok (TGen p) ->
-  round_spec S (stream_iters (t_num f)) (stream_iters (t_den f)) p fuel 0
-             (unpack (p_mvars (tp_prog p)) memory empty_env)
-             (assign_all (p_dvars (tp_prog p)) zero empty_env)
-             (run_tv S (TGen p) f memory zero fuel) /\
-  Forall (fun seg => seg = 0%nat :: snd (aterms (stream_iters (t_num f)) (stream_iters (t_den f))
-                                               (p_terms (tp_prog p)) p_zero))
-         (segs (run_tv S (TGen p) f memory zero fuel) []).
-Proof. exact products_round_spec. Qed.
-Print Assumptions C06_products_round_spec.
-
-(* tv_diffeq, in full.  For a filter with keys in order (distinct non-negative powers),
-   whatever subset of its coefficients are Stream objects (built by any arithmetic),
-   number gain or Stream gain (the divide-through branch), any memory, zero, sources and
-   consumer demand: with x before 0 = zero, y[-k] = the k-th memory item (C04's past),
-   and every table entry frozen at the instant j (vtab: a constant is a constant
-   sequence, a Stream its j-th value), every output j satisfies
-       a0[j] * y[j] = sum_k b_k[j] * x[j-k] - sum_{k>=1} a_k[j] * y[j-k]
-   provided a0[j] is defined and non-zero.  psum / feedback / ysig / past are C04's. *)
-Theorem C06_tv_diffeq : forall S (f : tfilt) h zero mem fuel f' h' p,
-  keys_ok (t_num f) -> keys_ok (t_den f) ->
-  prepare h f = Ok (BOk f' h') -> tcodegen f' zero = Ok (TGen p) -> wf_prog f' p = true ->
-  let lm := t_mem_size f' in
-  let ys := yields (run_tv S (TGen p) f' (normalise_memory lm zero mem) zero fuel) in
-  let X := xrel S 0 (fun _ => zero) in
-  let Y := ysig (past lm zero mem) ys in
-  forall j, (j < length ys)%nat ->
-  forall a0, gain_at (snapshot S j) f = Some a0 -> a0 <> 0 ->
-    a0 * Y (Z.of_nat j)
-    = psum (vtab (snapshot S j) (t_num f)) (fun k => X (Z.of_nat j - k)%Z)
-      - psum (feedback (vtab (snapshot S j) (t_den f))) (fun k => Y (Z.of_nat j - k)%Z).
-Proof. exact tv_diffeq_full. Qed.
-Print Assumptions C06_tv_diffeq.
-
 (* Every Poly the modelled arithmetic builds is a dict with pairwise distinct powers
    (induction over the expression; bases_ok: the dicts the expression starts from have
    distinct keys, as Python dicts do), so every filter __call__ accepts (its causality
@@ -229,72 +234,6 @@ Theorem C06_built_keys_ok : forall (e : fexp) h f h1 r,
   keys_ok (t_num f) /\ keys_ok (t_den f).
 Proof. exact built_keys_ok. Qed.
 Print Assumptions C06_built_keys_ok.
-
-(* tv_diffeq for every filter the arithmetic builds: no hypothesis on the tables *)
-Theorem C06_tv_diffeq_built : forall S (e : fexp) h0 (f : tfilt) h zero mem fuel f' h' p,
-  bases_ok e -> build coef_alg e h0 = BOk f h ->
-  prepare h f = Ok (BOk f' h') -> tcodegen f' zero = Ok (TGen p) -> wf_prog f' p = true ->
-  let lm := t_mem_size f' in
-  let ys := yields (run_tv S (TGen p) f' (normalise_memory lm zero mem) zero fuel) in
-  let X := xrel S 0 (fun _ => zero) in
-  let Y := ysig (past lm zero mem) ys in
-  forall j, (j < length ys)%nat ->
-  forall a0, gain_at (snapshot S j) f = Some a0 -> a0 <> 0 ->
-    a0 * Y (Z.of_nat j)
-    = psum (vtab (snapshot S j) (t_num f)) (fun k => X (Z.of_nat j - k)%Z)
-      - psum (feedback (vtab (snapshot S j) (t_den f))) (fun k => Y (Z.of_nat j - k)%Z).
-Proof. exact tv_diffeq_built. Qed.
-Print Assumptions C06_tv_diffeq_built.
-
-(* tv_ends_at_shortest.  If no coefficient divides by zero among the items the
-   sources deliver, the number of outputs is the number of consecutive instants
-   (at most what the consumer asks for) at which the input and every coefficient
-   source of the program deliver, and if that is less than what the consumer asks
-   for the trace ends with the generator returning (EvStop: no exception). *)
-Theorem C06_tv_ends_at_shortest : forall S (f : tfilt) (p : tprog) memory zero fuel,
-  let bs := stream_iters (t_num f) in
-  let az := stream_iters (t_den f) in
-  let ts := p_terms (tp_prog p) in
-  let rd := snd (aterms bs az ts p_zero) in
-  wf_prog f p = true ->
-  (forall n m d, forallb (alive S n) rd = true -> tsum (snapshot S n) bs az ts m d 0 <> None) ->
-  (forall n m d, exists V, compat S n V /\ tsum V bs az ts m d 0 <> None) ->
-  let tr := run_tv S (TGen p) f memory zero fuel in
-  count_yields tr = live_len S (0%nat :: rd) fuel 0 /\
-  ((live_len S (0%nat :: rd) fuel 0 < fuel)%nat -> exists pre, tr = pre ++ [EvStop]).
-Proof. exact ends_at_shortest. Qed.
-Print Assumptions C06_tv_ends_at_shortest.
-
-(* coef_read_once on the trace itself: the sources read before each yield are, in
-   this order, the input and the list rd - every coefficient source exactly once
-   (NoDup is part of wf_prog), whatever the number of tee consumers *)
-Theorem C06_coef_read_once : forall S (f : tfilt) (p : tprog) memory zero fuel,
-  wf_prog f p = true ->
-  Forall (fun seg => seg = 0%nat :: snd (aterms (stream_iters (t_num f)) (stream_iters (t_den f))
-                                               (p_terms (tp_prog p)) p_zero))
-         (segs (run_tv S (TGen p) f memory zero fuel) []).
-Proof. exact read_once. Qed.
-Print Assumptions C06_coef_read_once.
-
-(* tv_const_stream.  Two filters run by the library on the same input, memory and zero
-   whose coefficient tables agree at every instant - in particular a constant c in one
-   and an endless Stream of c in the other (cval of both is c: const_stream_entry) -
-   and with the same denominator keys: wherever both produce an output (the gain being
-   defined, equal and non-zero there) the outputs are equal. *)
-Theorem C06_tv_const_stream : forall S (f1 f2 : tfilt) h1 h2 zero mem fuel f1' f2' h1' h2' p1 p2,
-  keys_ok (t_num f1) -> keys_ok (t_den f1) -> keys_ok (t_num f2) -> keys_ok (t_den f2) ->
-  prepare h1 f1 = Ok (BOk f1' h1') -> tcodegen f1' zero = Ok (TGen p1) -> wf_prog f1' p1 = true ->
-  prepare h2 f2 = Ok (BOk f2' h2') -> tcodegen f2' zero = Ok (TGen p2) -> wf_prog f2' p2 = true ->
-  map fst (t_den f1) = map fst (t_den f2) ->
-  (forall j, vtab (snapshot S j) (t_num f1) = vtab (snapshot S j) (t_num f2)) ->
-  (forall j, vtab (snapshot S j) (t_den f1) = vtab (snapshot S j) (t_den f2)) ->
-  let ys1 := yields (run_tv S (TGen p1) f1' (normalise_memory (t_mem_size f1') zero mem) zero fuel) in
-  let ys2 := yields (run_tv S (TGen p2) f2' (normalise_memory (t_mem_size f2') zero mem) zero fuel) in
-  (forall j, (j < length ys1)%nat -> (j < length ys2)%nat ->
-     exists a0, gain_at (snapshot S j) f1 = Some a0 /\ gain_at (snapshot S j) f2 = Some a0 /\ a0 <> 0) ->
-  forall j, (j < length ys1)%nat -> (j < length ys2)%nat -> nth j ys1 0 = nth j ys2 0.
-Proof. exact outputs_agree_run. Qed.
-Print Assumptions C06_tv_const_stream.
 
 Theorem C06_const_stream_entry : forall S i c, (forall n, S i n = Some c) ->
   forall j, cval (snapshot S j) (CStr (XSrc i)) = cval (snapshot S j) (CNum c).
@@ -385,7 +324,7 @@ Proof.
 Qed.
 Print Assumptions C06_nonvacuous_ends.
 
-(* the hypotheses of C06_tv_diffeq hold for ex_expr (Stream gain, tee copies): *)
+(* ex_expr (Stream gain, tee copies) also passes the per-sample tests kept as lemmas (wf_prog, keys_ok_b): *)
 Example C06_nonvacuous_diffeq :
   match build coef_alg ex_expr 0 with
   | BOk f h =>
@@ -448,7 +387,7 @@ Proof.
 Qed.
 Print Assumptions C06_nonvacuous_lin.
 
-(* (s1 + 2 z^-1) * (1 + s2 z^-1) scaled by s3: the hypotheses of C06_products_round_spec hold *)
+(* (s1 + 2 z^-1) * (1 + s2 z^-1) scaled by s3 is a product of simple filters *)
 Definition ex4 : fexp :=
   FMulL (CStr (XSrc 3)) (FMul (FBase [(0%Z, CStr (XSrc 1)); (1%Z, CNum (qc 2 1))] [(0%Z, CNum 1)])
                               (FBase [(0%Z, CNum 1); (1%Z, CStr (XSrc 2))] [(0%Z, CNum 1)])).
@@ -465,3 +404,21 @@ Proof.
   eexists. eexists. split; vm_compute; reflexivity.
 Qed.
 Print Assumptions C06_nonvacuous_products.
+
+(* the final theorems are not vacuous: ex_expr (a Stream gain, tee copies, three sources)
+   is a good expression, it builds, goes through the gain branch and generates a program *)
+Example C06_nonvacuous_good :
+  good_expr ex_expr /\
+  exists f h f' h' p, build coef_alg ex_expr 0 = BOk f h /\ prepare h f = Ok (BOk f' h') /\
+                      tcodegen f' 0 = Ok (TGen p) /\ (exists e0, t_getitem coef_alg (t_den f) 0 = CStr e0).
+Proof.
+  split.
+  - split; [|split; [|split]].
+    + simpl. split; intros kv Hin; simpl in Hin; repeat (destruct Hin as [<-|Hin]; [exact I|]); destruct Hin.
+    + simpl. repeat split; repeat constructor; simpl; intuition discriminate.
+    + simpl. repeat constructor; simpl; intuition discriminate.
+    + simpl. intuition discriminate.
+  - do 5 eexists. split; [vm_compute; reflexivity|]. split; [vm_compute; reflexivity|].
+    split; [vm_compute; reflexivity|]. eexists. vm_compute. reflexivity.
+Qed.
+Print Assumptions C06_nonvacuous_good.
